@@ -1093,7 +1093,12 @@ type opResult struct {
 	Ticks   int
 	raw     system.Collection // the collection Evaluate returned, kept to see whether it changes later
 	Stale   string            // evalmut: the second evaluation did not see the caller's change
+	OptsTail string           // the library wrote behind the window of evaluate options it was handed
 }
+
+// two options of the caller's that sit behind every window of evaluate options (never applied);
+// built at package initialisation, only read afterwards
+var evalSentinels = [2]fhirpath.EvaluateOption{evalopts.EnvVariable("zs0", system.String("s0")), evalopts.EnvVariable("zs1", system.String("s1"))}
 
 func hashStr(s string) uint64 {
 	h := fnv.New64a()
@@ -1137,6 +1142,18 @@ func execOp(op *Op, oc *opCtx, p *compiled, in0 *inputs, entryOverride *time.Tim
 		return res
 	}
 	res.HasTime = hasTime
+	// the options are handed over as a window of a longer slice: what lies behind the window is the
+	// caller's (an application that keeps `all := []Option{...}` and passes all[:n]...)
+	full := append(append(make([]fhirpath.EvaluateOption, 0, len(opts)+2), opts...), evalSentinels[0], evalSentinels[1])
+	opts = full[:len(opts):len(full)]
+	defer func() {
+		for k := 0; k < 2; k++ {
+			if ifaceData(full[len(opts)+k]) != ifaceData(evalSentinels[k]) {
+				res.OptsTail = fmt.Sprintf("the caller's option slice was written to behind the %d options it passed (slot %d no longer holds the caller's option)", len(opts), k)
+				break
+			}
+		}
+	}()
 	if op.Kind == "patch" {
 		return execPatch(op, p, resources, opts, res)
 	}
